@@ -291,6 +291,18 @@ def run_replay_file(ctx: Ctx, rpath: str, logdir: str | None = None) -> tuple[bo
 # Known findings
 # ---------------------------------------------------------------------------
 
+def run_witness(ctx: Ctx, test_name: str) -> tuple[bool, str]:
+    """Runs one native #[test] of the harness crate (host toolchain, release, against ctx.repo).
+    The witness tests are written so that PASS means: the listed defect reproduces."""
+    env = base_env()
+    env["CARGO_TARGET_DIR"] = os.path.join(ctx.target_root, "native")
+    rc, out, wall = run_cmd(f"cargo test --offline --release --lib -- --exact witness::tests::{test_name}", ctx.harness_dir, 1800, None, env)
+    m = re.search(r"test result: (\w+)\. (\d+) passed; (\d+) failed", out)
+    if rc == 0 and m and int(m.group(2)) == 1 and int(m.group(3)) == 0:
+        return True, f"native witness test witness::tests::{test_name} passed in {wall:.0f}s (defect reproduces in the release build)"
+    return False, f"rc={rc} " + (m.group(0) if m else out[-200:].replace("\n", " "))
+
+
 def load_known() -> list[dict]:
     p = os.path.join(ROOT, "known_findings.json")
     if not os.path.exists(p):
@@ -300,7 +312,8 @@ def load_known() -> list[dict]:
 
 def match_known(known: list[dict], prop: str, r: dict) -> dict | None:
     for e in known:
-        if e["property"] != prop or e["match"]["harness"] != r["name"]:
+        names = e["match"].get("harnesses") or [e["match"]["harness"]]
+        if e["property"] != prop or r["name"] not in names:
             continue
         descs = [f["description"] for f in r["failures"]]
         # every failing check of this harness must be the listed one
@@ -362,11 +375,23 @@ def check_property(prop: str, tier: str, only: str | None, jobs: int, ctx: Ctx |
         if r["verdict"] == "failed":
             h = by_name[r["name"]]
             descs = sorted({f["description"] for f in r["failures"]})
+            e = match_known(known, prop, r)
+            if e and e.get("native_witness"):
+                # A listed finding: confirm natively with its stored witness test (a plain #[test] in the
+                # harness crate that passes iff the defect is still present in the real build) instead of
+                # the much slower solver trace. If the witness does not confirm, fall through to the
+                # full playback so that nothing is suppressed on hearsay.
+                ok, detail = run_witness(ctx, e["native_witness"])
+                if ok:
+                    log(f"[{prop}] {r['name']}: solver found a model for: {descs[:4]} -- listed finding, native witness {e['native_witness']} confirms")
+                    r["replay"] = {"reproduced": True, "path": os.path.join(ROOT, "harness/src/witness.rs") + "::" + e["native_witness"], "detail": detail}
+                    known_lines.append((e, r))
+                    continue
+                log(f"[{prop}] {r['name']}: native witness {e['native_witness']} did NOT confirm ({detail}); full replay")
             log(f"[{prop}] {r['name']}: solver found a model for: {descs[:4]} -- replaying natively")
             pb = playback(ctx, h, logdir, prop)
             r["replay"] = pb
             if pb["reproduced"]:
-                e = match_known(known, prop, r)
                 if e:
                     known_lines.append((e, r))
                 else:
